@@ -235,10 +235,10 @@ static void compare(Sys& S, const State& h) {
     for (int i = 1; i <= S.nb; ++i) if (S.body[i].getLockLevel(h) == Motion::NoLevel) allp = 0;
     if (g >= Stage::Acceleration) {
         cmpV(c, "udot", h.getUDot(), f.getUDot());
-        // with every mobility prescribed G M^-1 G^T is the zero matrix and FactorQTZ::solve leaves the multipliers unwritten
-        // (known finding); they are then not compared but their magnitude is reported
+        // with every mobility prescribed G M^-1 G^T is the zero matrix; FactorQTZ::solve used to leave the multipliers unwritten
+        // (fixed by 1ce33455): their magnitude is reported for the regression witness
         if (allp && h.getMultipliers().size()) { for (int i = 0; i < h.getMultipliers().size(); ++i) mulmax = std::max(mulmax, std::abs(h.getMultipliers()[i])); }
-        else cmpV(c, "multipliers", h.getMultipliers(), f.getMultipliers());
+        cmpV(c, "multipliers", h.getMultipliers(), f.getMultipliers());
         cmpV(c, "udoterr", h.getUDotErr(), f.getUDotErr()); if (h.getNZ()) cmpV(c, "zdot", h.getZDot(), f.getZDot());
         for (int i = 1; i <= S.nb; ++i) {
             const SpatialVec &a = S.body[i].getBodyAcceleration(h), &b = S.body[i].getBodyAcceleration(f);
